@@ -367,7 +367,7 @@ func vfC52GenRT(rt *rapid.T) vfC52RTPlan {
 		p.Frame[1] = vfC52GenFrame(rt, "frame_s")
 	}
 	L := [2]int{vfC52Limit(p.Frame[0]) - vfC52HdrLen - vfC52TagLen, vfC52Limit(p.Frame[1]) - vfC52HdrLen - vfC52TagLen}
-	budget := 3 << 20 // plaintext bytes per case
+	budget := 3 << 19 // plaintext bytes per case (1.5 MiB)
 	take := func(n int) int {
 		n = max(0, min(n, budget))
 		budget -= n
